@@ -95,7 +95,12 @@ def regen_generated():
     """source-derived parameters: regenerate Consts.v from /repo (only rewritten on change)."""
     gen = os.path.join(ROOT, "tools", "gen_consts.py")
     if os.path.exists(gen):
-        rc, out = run([sys.executable, gen], cwd=ROOT, timeout=120)
+        # gen_compiler.py (called by gen_consts.py) may have to build the harness once: allow for a
+        # loaded machine; a time-out is reported like any other failure, never as a crash of the driver
+        try:
+            rc, out = run([sys.executable, gen], cwd=ROOT, timeout=3000)
+        except subprocess.TimeoutExpired:
+            return "tools/gen_consts.py timed out"
         if rc != 0:
             return out
     return None
